@@ -106,7 +106,7 @@ static int header_read (SF_PRIVATE *psf, void *ptr, int bytes)
 __CPROVER_requires (__CPROVER_is_fresh (psf, sizeof (SF_PRIVATE)) && HDR_WF (psf) && MIRROR (psf))
 __CPROVER_requires (0 <= bytes && bytes <= 65536 && bytes == vin_bytes)
 __CPROVER_requires (__CPROVER_is_fresh (ptr, bytes > 0 ? (size_t) bytes : 1))
-__CPROVER_assigns (psf->error, psf->pipeoffset, psf->header.ptr, psf->header.len, psf->header.indx, psf->header.end, psf->parselog, __CPROVER_object_whole (&gio), __CPROVER_object_whole (psf->header.ptr), __CPROVER_object_whole (ptr))
+__CPROVER_assigns (psf->error, psf->pipeoffset, psf->syserr, psf->header.ptr, psf->header.len, psf->header.indx, psf->header.end, psf->parselog, __CPROVER_object_whole (&gio), __CPROVER_object_whole (psf->header.ptr), __CPROVER_object_whole (ptr))
 __CPROVER_ensures (HDR_WF_POST (psf)) /*@C03.header_read_keeps_header_wf*/
 __CPROVER_ensures (0 <= __CPROVER_return_value && __CPROVER_return_value <= bytes + (vin_indx > vin_end ? vin_indx - vin_end : 0)) /*@C03.header_read_ret_range*/
 __CPROVER_ensures (__CPROVER_return_value == bytes ==> psf->header.indx == vin_indx + bytes || gio.io_short) /*@C03.header_read_advances_cursor*/
@@ -117,7 +117,7 @@ __CPROVER_requires (__CPROVER_is_fresh (psf, sizeof (SF_PRIVATE)) && HDR_WF (psf
 __CPROVER_requires (-(1LL << 40) <= position && position <= (1LL << 40) && position == vin_position && whence == vin_whence)
 /* caller obligation (psf_binheader_readf "p"): absolute header positions are not negative */
 __CPROVER_requires (whence != SEEK_SET || position >= 0)
-__CPROVER_assigns (psf->error, psf->pipeoffset, psf->header.ptr, psf->header.len, psf->header.indx, psf->header.end, psf->parselog, __CPROVER_object_whole (&gio), __CPROVER_object_whole (psf->header.ptr))
+__CPROVER_assigns (psf->error, psf->pipeoffset, psf->syserr, psf->header.ptr, psf->header.len, psf->header.indx, psf->header.end, psf->parselog, __CPROVER_object_whole (&gio), __CPROVER_object_whole (psf->header.ptr))
 __CPROVER_ensures (HDR_WF_POST (psf)) /*@C03.header_seek_keeps_header_wf*/
 __CPROVER_ensures ((vin_is_pipe && vin_whence == SEEK_CUR) ==> gio.fseek_calls == 0 || vin_indx >= vin_len) /*@C14.pipe_skip_reads_instead_of_seeking*/
 ;
@@ -126,7 +126,7 @@ static int header_gets (SF_PRIVATE *psf, char *ptr, int bufsize)
 __CPROVER_requires (__CPROVER_is_fresh (psf, sizeof (SF_PRIVATE)) && HDR_WF (psf) && MIRROR (psf))
 __CPROVER_requires (1 <= bufsize && bufsize <= 4096 && bufsize == vin_bytes)
 __CPROVER_requires (__CPROVER_is_fresh (ptr, (size_t) bufsize))
-__CPROVER_assigns (psf->error, psf->pipeoffset, psf->header.ptr, psf->header.len, psf->header.indx, psf->header.end, psf->parselog, __CPROVER_object_whole (&gio), __CPROVER_object_whole (psf->header.ptr), __CPROVER_object_whole (ptr))
+__CPROVER_assigns (psf->error, psf->pipeoffset, psf->syserr, psf->header.ptr, psf->header.len, psf->header.indx, psf->header.end, psf->parselog, __CPROVER_object_whole (&gio), __CPROVER_object_whole (psf->header.ptr), __CPROVER_object_whole (ptr))
 __CPROVER_ensures (HDR_WF_POST (psf)) /*@C03.header_gets_keeps_header_wf*/
 __CPROVER_ensures (0 <= __CPROVER_return_value && __CPROVER_return_value < bufsize) /*@C03.header_gets_ret_range*/
 __CPROVER_ensures (__CPROVER_return_value > 0 ==> ptr [__CPROVER_return_value] == 0) /*@C03.header_gets_terminates_string_within_buffer*/
